@@ -33,20 +33,20 @@ class MultichainPolicyIteration(Plans):
             max_iterations=self.max_iterations
         )
         state_gain, action_gain, state_bias, action_bias, _, iterations = results
-        gain_max_actions = np.isclose(
-            action_gain, action_gain.max(-1, keepdims=True),
-            atol=10**(-self.VALUE_DECIMAL_PRECISION),
-            rtol=0
-        )
-        bias_max_actions = np.isclose(
-            action_bias, action_bias.max(-1, keepdims=True),
-            atol=10**(-self.VALUE_DECIMAL_PRECISION),
-            rtol=0
-        )
+        # gains are compared with the tolerance the improvement steps themselves use (the solve returns
+        # them with round-off of ~1e-8, also when they are exactly 0)
+        gain_max_actions = np.isclose(action_gain, action_gain.max(-1, keepdims=True))
         if mdp.discount_rate < 1.0:
             # the gain of a discounted problem is identically zero; what the solve returns for it is
             # round-off noise, which must not take part in selecting the policy's actions
             gain_max_actions = mdp.action_matrix.astype(bool)
+        # among the gain-maximal actions, those with maximal bias
+        gain_max_bias = np.where(gain_max_actions, action_bias, -np.inf)
+        bias_max_actions = np.isclose(
+            gain_max_bias, gain_max_bias.max(-1, keepdims=True),
+            atol=10**(-self.VALUE_DECIMAL_PRECISION),
+            rtol=0
+        )
         policy_matrix = gain_max_actions & bias_max_actions
         policy_matrix = policy_matrix/policy_matrix.sum(-1, keepdims=True)
         policy=TabularPolicy.from_state_action_lists(
